@@ -93,9 +93,21 @@ def build_facts(config="default", repo=REPO, quiet=False):
                 pass
             return d, hsh, nfiles
         # drop stale fact dirs of this config (keep disk small)
-        olds = sorted(glob.glob(os.path.join(CACHE, "facts-*-%s" % config)), key=os.path.getmtime)
+        olds = sorted((x for x in glob.glob(os.path.join(CACHE, "facts-*-%s" % config)) if os.path.isdir(x)), key=os.path.getmtime)
+        now = time.time()
+        for junk in glob.glob(os.path.join(CACHE, "facts-*.tmp")) + glob.glob(os.path.join(CACHE, "lock-*")):
+            try:
+                if now - os.path.getmtime(junk) > 7200 and junk != lockf.name:
+                    if os.path.isdir(junk):
+                        shutil.rmtree(junk, ignore_errors=True)
+                    else:
+                        os.remove(junk)
+            except OSError:
+                pass
         for old in olds[:-5] if len(olds) > 5 else []:
-            shutil.rmtree(old, ignore_errors=True)
+            # never remove a directory another process may still be loading
+            if now - os.path.getmtime(old) > 1800:
+                shutil.rmtree(old, ignore_errors=True)
         tmpd = d + ".tmp"
         shutil.rmtree(tmpd, ignore_errors=True)
         os.makedirs(tmpd)
@@ -152,6 +164,17 @@ def build_facts(config="default", repo=REPO, quiet=False):
 
 
 def load_raw(config="default", repo=REPO):
+    for attempt in (0, 1):
+        try:
+            return _load_raw(config, repo)
+        except (FileNotFoundError, KeyError, json.JSONDecodeError, EOFError):
+            # the cache directory vanished or was incomplete under our feet: rebuild once
+            if attempt:
+                raise
+            time.sleep(1.0)
+
+
+def _load_raw(config="default", repo=REPO):
     d, hsh, nfiles = build_facts(config, repo)
     pk = os.path.join(d, "all.pickle")
     if os.path.exists(pk):
@@ -165,6 +188,8 @@ def load_raw(config="default", repo=REPO):
         with open(f) as fh:
             c = json.load(fh)
         crates[c["crate"]] = c
+    if "tantivy" not in crates:
+        raise FileNotFoundError("fact directory %s lost its files" % d)
     try:
         tmp = pk + ".%d" % os.getpid()
         with open(tmp, "wb") as fh:
